@@ -162,8 +162,8 @@ func (c *Ctx) ctorDefaults(rule, name, instField string, want map[string]*big.Ra
 				if ev.Kind == pw.EvFieldRead && orig == nil {
 					orig = ev.Value
 				}
-				if ev.Kind == pw.EvFieldWrite && write == nil && orig != nil {
-					write = ev
+				if ev.Kind == pw.EvFieldWrite && write == nil && orig != nil && ev.Value != orig {
+					write = ev // (writing the value that was read back into the field is not a change)
 				}
 			}
 			if orig == nil {
